@@ -57,15 +57,16 @@ type vsConc struct {
 	Name  string
 	Keys  map[string][]byte
 	Width int // >1: every abstract key stands for Width real keys written together (momentum-sized patches)
+	Heavy int // >0: the values of the extra keys are padded by this many bytes (patches of more than a megabyte)
 }
 
 var vsConcs = []vsConc{
-	{"ascii", map[string][]byte{"k1": []byte("k1"), "k2": []byte("k2")}, 1},
+	{"ascii", map[string][]byte{"k1": []byte("k1"), "k2": []byte("k2")}, 1, 0},
 	{"longprefix", map[string][]byte{
 		"k1": append(append([]byte{0x10}, bytes.Repeat([]byte{0xab}, 40)...), 0x01),
-		"k2": append(append([]byte{0x10}, bytes.Repeat([]byte{0xab}, 40)...), 0x02)}, 1},
-	{"bookkeeping-prefixes", map[string][]byte{"k1": {0x00, 0x00}, "k2": {0x02}}, 1},
-	{"ff-and-nested", map[string][]byte{"k1": {0xff}, "k2": {0xff, 0xff}}, 1},
+		"k2": append(append([]byte{0x10}, bytes.Repeat([]byte{0xab}, 40)...), 0x02)}, 1, 0},
+	{"bookkeeping-prefixes", map[string][]byte{"k1": {0x00, 0x00}, "k2": {0x02}}, 1, 0},
+	{"ff-and-nested", map[string][]byte{"k1": {0xff}, "k2": {0xff, 0xff}}, 1, 0},
 }
 
 func vsVal(v string) []byte {
@@ -188,6 +189,8 @@ func vsNewTx(conc vsConc, parent []string, tag string) *vsTx {
 			sub := append(append([]byte{}, conc.Keys[k]...), []byte(fmt.Sprintf("#%04d", i))...)
 			if v == "NONE" {
 				p.Delete(sub)
+			} else if conc.Heavy > 0 {
+				p.Put(sub, append(vsVal(v), bytes.Repeat([]byte{byte(i)}, conc.Heavy)...))
 			} else {
 				p.Put(sub, vsVal(v))
 			}
